@@ -103,6 +103,64 @@ theorem deliveredB_of (s : St) (c : Change) (d : Nat × Batch) (g : Group)
   refine ⟨g, hg, ?_⟩
   simp [hi, hc]
 
+/-- change `c` was in an event given up on after a finite retry limit was exhausted -/
+def droppedB (s : St) (c : Change) : Bool :=
+  s.dropped.any fun d => d.2.any fun g => g.idx == c.1 && g.chg.contains c
+
+theorem droppedB_of (s : St) (c : Change) (d : Nat × Batch) (g : Group)
+    (hd : d ∈ s.dropped) (hg : g ∈ d.2) (hi : g.idx = c.1) (hc : c ∈ g.chg) : droppedB s c = true := by
+  unfold droppedB
+  rw [List.any_eq_true]
+  refine ⟨d, hd, ?_⟩
+  rw [List.any_eq_true]
+  refine ⟨g, hg, ?_⟩
+  simp [hi, hc]
+
+theorem top_init_mr (b mr : Nat) (hb : 0 < b) : Top { batchSz := b, maxRetries := mr } := by
+  have h := top_init b hb
+  exact ⟨base_transfer _ _ _ h.base rfl rfl rfl rfl rfl rfl rfl rfl rfl rfl,
+    cov_transfer _ _ _ h.cov (fun x hx _ => hx) rfl rfl rfl rfl rfl rfl, h.logOk, h.sorted, h.frontLe⟩
+
+/-- **At least once, unless a finite retry limit is configured and exhausted** — the
+property's own exception made explicit: for every batch size and EVERY retry limit `mr`
+(0 = none), under the same histories as `at_least_once_partial`, every change has been
+POSTed with its entry's index, or was in an event the leader gave up on after the limit
+(`dropped`), or lies at or below an HWM announced by another node. -/
+theorem at_least_once_or_retry_limit (b mr : Nat) (ops : List Op) (hb : 0 < b) (hwf : wfOps 0 ops) :
+    ∀ c ∈ changesOf ops,
+      deliveredB (run { batchSz := b, maxRetries := mr } (ops ++ heal)) c = true ∨
+      droppedB (run { batchSz := b, maxRetries := mr } (ops ++ heal)) c = true ∨
+      c.1 ≤ (run { batchSz := b, maxRetries := mr } (ops ++ heal)).maxIn := by
+  intro c hc
+  have h0 := top_init_mr b mr hb
+  have hw0 : wfOps (lastIdx ({ batchSz := b, maxRetries := mr } : St).log) ops := by simpa [lastIdx] using hwf
+  have ht := top_run _ ops h0 hw0
+  obtain ⟨_, hlogE⟩ := log_of_run _ ops h0 hw0
+  rw [run_append]
+  obtain ⟨htF, hbat, hheld, hne, hlog⟩ := healed_is_drained _ ht
+  unfold changesOf at hc
+  rw [List.mem_flatMap] at hc
+  obtain ⟨op, hop, hcop⟩ := hc
+  cases op with
+  | entry e =>
+    simp only at hcop
+    have he : e ∈ (run { batchSz := b, maxRetries := mr } ops).log := hlogE e hop
+    have hs := (ht.logOk e he).2.2
+    obtain ⟨g, hg, hgi, hcg, hc1⟩ := change_in_group (run (run { batchSz := b, maxRetries := mr } ops) heal).keepIdx e hs c hcop
+    have hgG : g ∈ groups (run (run { batchSz := b, maxRetries := mr } ops) heal) := by
+      rw [mem_groups]; exact ⟨e, by rw [hlog]; exact he, hg⟩
+    rcases done_of_drained _ htF hbat hheld hne g hgG with (⟨d, hd, hgd⟩ | ⟨d, hd, hgd⟩) | h
+    · left; exact deliveredB_of _ c d g hd hgd (by rw [hgi, hc1]) hcg
+    · right; left; exact droppedB_of _ c d g hd hgd (by rw [hgi, hc1]) hcg
+    · right; right; rw [hc1, ← hgi]; exact h
+  | timer => simp at hcop
+  | sync => simp at hcop
+  | leader _ => simp at hcop
+  | endpoint _ => simp at hcop
+  | hwm _ => simp at hcop
+  | tick => simp at hcop
+  | restart => simp at hcop
+
 /-- **At least once, with the entry's index** (the part of the full statement that holds).
 For EVERY batch size and EVERY history of applied log entries (strictly increasing indexes,
 each yielding at most one event group: single-statement requests, requests in a
@@ -118,34 +176,15 @@ theorem at_least_once_partial (b : Nat) (ops : List Op) (hb : 0 < b) (hwf : wfOp
       deliveredB (run { batchSz := b } (ops ++ heal)) c = true ∨
       c.1 ≤ (run { batchSz := b } (ops ++ heal)).maxIn := by
   intro c hc
-  have h0 := top_init b hb
-  have hw0 : wfOps (lastIdx ({ batchSz := b } : St).log) ops := by simpa [lastIdx] using hwf
-  have ht := top_run _ ops h0 hw0
-  obtain ⟨_, hlogE⟩ := log_of_run _ ops h0 hw0
-  rw [run_append]
-  obtain ⟨htF, hbat, hheld, hne, hlog⟩ := healed_is_drained _ ht
-  -- the entry the change belongs to
-  unfold changesOf at hc
-  rw [List.mem_flatMap] at hc
-  obtain ⟨op, hop, hcop⟩ := hc
-  cases op with
-  | entry e =>
-    simp only at hcop
-    have he : e ∈ (run { batchSz := b } ops).log := hlogE e hop
-    have hs := (ht.logOk e he).2.2
-    obtain ⟨g, hg, hgi, hcg, hc1⟩ := change_in_group (run (run { batchSz := b } ops) heal).keepIdx e hs c hcop
-    have hgG : g ∈ groups (run (run { batchSz := b } ops) heal) := by
-      rw [mem_groups]; exact ⟨e, by rw [hlog]; exact he, hg⟩
-    rcases done_of_drained _ htF hbat hheld hne g hgG with ⟨d, hd, hgd⟩ | h
-    · left; exact deliveredB_of _ c d g hd hgd (by rw [hgi, hc1]) hcg
-    · right; rw [hc1, ← hgi]; exact h
-  | timer => simp at hcop
-  | sync => simp at hcop
-  | leader _ => simp at hcop
-  | endpoint _ => simp at hcop
-  | hwm _ => simp at hcop
-  | tick => simp at hcop
-  | restart => simp at hcop
+  rcases at_least_once_or_retry_limit b 0 ops hb hwf c hc with h | h | h
+  · exact Or.inl h
+  · -- no retry limit: nothing is ever dropped
+    exfalso
+    have := (run_no_drop { batchSz := b, maxRetries := 0 } (ops ++ heal) rfl rfl).1
+    unfold droppedB at h
+    rw [this] at h
+    simp at h
+  · exact Or.inr h
 
 /-- **Within one tenure the POSTs are in strictly increasing key order** (the key of a
 POST is the highest log index it carries). `pre` is any earlier history; `seg` any stretch
